@@ -45,7 +45,12 @@ MANIFEST = {
     "design_ref": "DESIGN.md section 3 (C10)",
 }
 _CORPUS: list[str] | None = None
-C10_MISTAKES = gen.MISTAKES
+# stratified over the program index; kinds whose diagnostic has to choose among several
+# candidates by walking CFG or scope structures get a second slot
+C10_MISTAKES = gen.MISTAKES + (
+    "maybe_undefined", "maybe_undefined_dead_merge", "branch_type_conflict", "qubit_leak",
+    "qubit_branch_leak", "nested_maybe_undefined_captures", "nested_branch_type_captures",
+    "maybe_undefined_dead_merge")
 
 
 # ------------------------------------------------------------------------- child side
@@ -210,20 +215,23 @@ def run_job(job: dict) -> dict:
 # ------------------------------------------------------------------------ driver side
 def configs(tier: str, seed: int) -> list[dict]:
     if tier == "quick":
-        # (one schedule configuration is enough while the shipped worklists are ordered:
-        # the scheduler then finds no choice point; the slots go to a fourth hash seed)
-        hs, layouts, scheds = ["0", "1", "4242", "7"], [0, 1], 1
+        # four hash seeds under the plain layout, four more heap layouts under the reference
+        # hash seed (a different hash seed perturbs the heap as well), one schedule
+        # configuration (enough while the shipped worklists are ordered: the scheduler then
+        # finds no choice point)
+        hs, layouts, scheds = ["0", "1", "4242", "7"], [0], 1
+        extra_layouts = [1, 2, 3, 4]
     else:
         hs, layouts, scheds = ["0", "1", "7", "1234", "99", "31337"], [0, 1, 2, 3], 8
+        extra_layouts = [4, 5, 6, 7]
     out = []
     for h in hs:
         for l in layouts:
             out.append({"name": f"h{h}-l{l}", "flavour": "h" + h, "hashseed": h, "layout": l,
                         "hook": False})
-    if tier == "quick":     # two more heap layouts under the reference hash seed
-        for l in (2, 3):
-            out.append({"name": f"h0-l{l}", "flavour": "h0", "hashseed": "0", "layout": l,
-                        "hook": False})
+    for l in extra_layouts:
+        out.append({"name": f"h0-l{l}", "flavour": "h0", "hashseed": "0", "layout": l,
+                    "hook": False})
     pols = ["highest", "random", "lifo", "anti", "fifo", "rpo", "random", "starve"]
     for i in range(scheds):
         out.append({"name": f"h0-s{i}-{pols[i % len(pols)]}", "flavour": "h0", "hashseed": "0",
